@@ -15,6 +15,8 @@ TRUSTED = ['rustc MIR']
 
 def run(ctx):
     rep = Report('C05')
+    import gen_thrift as _g
+    _g.corpus_generated(rep, 'G05.h')
     prog = mirlib.load_program([ws_facts('ws')])
     cg = mirlib.CallGraph(prog)
     pr.trio(rep, 'R05.a', prog, cg)
